@@ -203,6 +203,7 @@ def _check_blocks(p_old, p_new, new_ir, probes, viols, rng):
                         "detail": f"{type(e).__name__}: {e}",
                         "path": [list(x) for x in node_path] + [[attr, [rg.start, rg.stop]]],
                         "stmt_class": "Block",
+                        "attr": attr,
                     }
                 )
                 continue
@@ -215,6 +216,7 @@ def _check_blocks(p_old, p_new, new_ir, probes, viols, rng):
                         "detail": f"block forwarded to {type(bi).__name__}",
                         "path": [list(x) for x in node_path] + [[attr, [rg.start, rg.stop]]],
                         "stmt_class": "Block",
+                        "attr": attr,
                     }
                 )
                 continue
@@ -231,6 +233,7 @@ def _check_blocks(p_old, p_new, new_ir, probes, viols, rng):
                         "detail": f"{type(e).__name__}: {e}",
                         "path": [list(x) for x in node_path] + [[attr, [rg.start, rg.stop]]],
                         "stmt_class": "Block",
+                        "attr": attr,
                     }
                 )
                 continue
